@@ -185,6 +185,16 @@ Theorem C01_sign_recover_end_to_end_in_range :
 Proof. exact sign_recover_secp_in_range. Qed.
 Print Assumptions C01_sign_recover_end_to_end_in_range.
 
+(* 9. Consistency of the bridge to C05: pkg/secp256k1's UpdateEIP155 / UpdateEIP2930 are modelled both
+      here (on triples, Int64() as the two's-complement wrap) and in Secp/Model.v (on a record, Int64()
+      as math/big computes it); the two models are the same functions for every integer V, R, S. *)
+Theorem C01_V_conventions_models_agree :
+  forall (sg : sigdata) (chain : Z),
+  untriple (UpdateEIP2930 sg) = SM.UpdateEIP2930 (untriple sg) /\
+  untriple (UpdateEIP155 sg chain) = SM.UpdateEIP155 (untriple sg) chain.
+Proof. intros sg chain. split; [apply UpdateEIP2930_models_agree|apply UpdateEIP155_models_agree]. Qed.
+Print Assumptions C01_V_conventions_models_agree.
+
 (* non-vacuity: an EIP-155 transfer on chain 2^53 with a constant signer meets every hypothesis of
    theorem 1, and the result is the 9-element list with V = 2^54 + 35 + 1 *)
 Example C01_nonvacuous :
